@@ -147,9 +147,20 @@ class Check:
             self.inconclusive.append(f"{label}: candidate counterexample did not reproduce on the real code")
         return False
 
-    def expect_sat(self, label, conds, what="reachability"):
-        """Vacuity guard: the conjunction must be satisfiable."""
-        v = self.prover.check(conds, label + ":vacuity")
+    def expect_sat(self, label, conds, what="reachability", ctx=None):
+        """Vacuity guard: the conjunction must be satisfiable (if the solver gives up, the run's witness point is offered
+        as a model candidate: all variables fixed, the query becomes a ground evaluation)."""
+        old = self.prover.timeout_ms
+        self.prover.timeout_ms = min(old, 20000)
+        try:
+            v = self.prover.check(conds, label + ":vacuity")
+            if v.status == "unknown" and ctx is not None:
+                from .real import zval
+
+                fix = [var == zval(ctx.assign[n]) for n, (var, _, _) in ctx.vars.items() if n in ctx.assign]
+                v = self.prover.check(list(conds) + fix, label + ":vacuity@witness")
+        finally:
+            self.prover.timeout_ms = old
         self.evaluations += 1
         if v.status == "sat":
             self.vacuity["reach_ok" if what == "reachability" else "perturb_ok"] += 1
@@ -182,9 +193,10 @@ class Check:
         if len(self.violations) >= self.cap_violations:
             self.violations.append((key, what, None))
             return True
-        os.makedirs(os.path.join(VERIF, "replays"), exist_ok=True)
+        repdir = os.environ.get("VERIF_REPLAY_DIR") or os.path.join(VERIF, "replays")
+        os.makedirs(repdir, exist_ok=True)
         self._nrep += 1
-        path = os.path.join(VERIF, "replays", f"{self.pid}-{self._nrep}.json")
+        path = os.path.join(repdir, f"{self.pid}-{self._nrep}.json")
         with open(path, "w") as f:
             json.dump({"property": self.pid, "key": key, "what": what, "kind": kind, "args": args,
                        "detail": str(detail)[:2000]}, f, indent=1, default=str)
@@ -234,8 +246,9 @@ class Check:
             "wall_s": round(wall, 2),
             "violations": len(self.violations),
         }
-        os.makedirs(os.path.join(VERIF, "evidence"), exist_ok=True)
-        with open(os.path.join(VERIF, "evidence", f"{self.pid}.json"), "w") as f:
+        evdir = os.environ.get("VERIF_EVIDENCE_DIR") or os.path.join(VERIF, "evidence")  # override: developer screening runs only
+        os.makedirs(evdir, exist_ok=True)
+        with open(os.path.join(evdir, f"{self.pid}.json"), "w") as f:
             json.dump(ev, f, indent=1, default=str)
         st = self.prover.stats()
         print(f"[{self.pid}] tier={self.tier} obligations={self.obligations} discharged={self.discharged} "
